@@ -53,6 +53,11 @@ def run(tier, seed, t0):
         vlib.run_mc("MC_Tune", "MC_Tune.cfg", workers=8),
         # anti-vacuity: "0 is just the smallest number" must break them
         vlib.run_mc("MC_Tune", "MC_Tune_bug.cfg", workers=2, expect_violation="TopIffUnlimited"),
+        # soundness of the rank abstraction and the property's wording on the REAL u16/u32 domains, symbolically
+        # (Apalache, SMT integers): ranks commute with the negotiation for all 2^32 x 2^32 frame_max pairs etc.
+        vlib.run_apalache("TuneInd", "ConstInit", "Init", "Inv", 0),
+        vlib.run_apalache("TuneInd", "ConstInitBugZero", "Init", "Inv", 0, expect_violation=True),
+        vlib.run_apalache("TuneInd", "ConstInitBugRank", "Init", "Inv", 0, expect_violation=True),
     ]
     tdir = vlib.outdir(PROP, "traces", clean=True)
     cases, info = vlib.gen_cases("GEN_Tune", "GEN_Tune.cfg")
